@@ -18,6 +18,7 @@ import (
 	"bytes"
 	"crypto/tls"
 	"crypto/x509"
+	"encoding/binary"
 	"encoding/json"
 	"fmt"
 	"io"
@@ -235,7 +236,12 @@ func (ep *ExportingProcess) SendSet(set entities.Set) (int, error) {
 		return 0, fmt.Errorf("set type is not properly defined")
 	}
 	if setType == entities.Data {
+		// The Set ID of a Data Set is the ID of the Template that describes its records.
+		setID := binary.BigEndian.Uint16(set.GetHeaderBuffer())
 		for _, record := range set.GetRecords() {
+			if record.GetTemplateID() != setID {
+				return 0, fmt.Errorf("error when doing sanity check: record for template %d in a data set with set ID %d", record.GetTemplateID(), setID)
+			}
 			err := ep.dataRecSanityCheck(record)
 			if err != nil {
 				return 0, fmt.Errorf("error when doing sanity check:%v", err)
